@@ -435,7 +435,9 @@ OP(bn_rec_glv) {
 	bn_new(n);
 	ep_curve_get_ord(n);
 	if (ep_curve_is_endom()) {
-		bn_mod(R[2], B[0], n);
+		/* "a positive integer" is all the header asks for: in a third of the instances the scalar is handed over as it
+		 * is (up to and beyond the precision), otherwise reduced modulo the order as the library's own callers do */
+		if ((B[6]->dp[0] >> 13) % 3 == 0) bn_abs(R[2], B[0]); else bn_mod(R[2], B[0], n);
 		W(bn_rec_glv(R[0], R[1], R[2], n, ep_curve_get_v1(), ep_curve_get_v2()));
 	}
 	out_bn(R[0]); out_bn(R[1]);
@@ -828,6 +830,9 @@ OP(cap_rec_win) { size_t w = REC_W; CAPREC("bn_rec_win", ol, W(bn_rec_win(o, &ol
 OP(cap_rec_slw) { size_t w = REC_W; CAPREC("bn_rec_slw", ol, W(bn_rec_slw(o, &ol, B[0], w))); }
 OP(cap_rec_reg) {
 	size_t w = REC_W, n = RLC_MAX(bn_bits(B[0]), 1) + (size_t)((B[6]->dp[0] >> 8) % 3);	/* "a positive integer": a length of zero is outside the documented domain */
+	/* a recoding length shorter than the integer (a quarter of the instances): the integer does not fit, which must be
+	 * reported or recoded short - not copied beyond the scratch storage that was sized from n */
+	if ((B[6]->dp[0] >> 14) % 4 == 0) n = RLC_MAX(n >> (1 + (B[6]->dp[0] >> 16) % 4), 1);
 	CAPREC("bn_rec_reg", ol, W(bn_rec_reg((int8_t *)o, &ol, B[0], n, w)));
 }
 /* the joint sparse form is written as two rows at a distance of max(bits) + 1: the storage it needs ends with the
